@@ -2183,3 +2183,7 @@ mod tests {
         assert_eq!(result_map.value_offsets(), &[0, 0, 1, 1, 3]);
     }
 }
+
+#[cfg(kani)]
+#[path = "/verif/kani/arrow-select/concat.rs"]
+mod verif_kani;
